@@ -13,7 +13,7 @@ PROP = {'pkg': 'github.com/ProjectSerenity/firefly/kernel/mm/pmm',
          'ownership table updated with atomic swap detects a frame held twice; afterwards reserved totals, per-pool '
          'free counters vs. bitmap bits and an exhaustive drain are checked; a progress watchdog detects blocked '
          'calls; deterministic probes check that every return path releases the lock and that both calls wait for it. '
-         'Non-trivial = >=4 workers, out-of-memory hit at least once and measured lock contention > 0.',
+         'Non-trivial = >=4 workers, out-of-memory hit at least once and calls measured to be under way at the same moment (how the allocator keeps them apart is its business).',
  'technique': 'rapid-generated parallel workloads with ownership-table invariant, quiescent-state accounting and '
               'deterministic lock-discipline probes',
  'level_text': 'Sampled truly-parallel schedules on 16 cores with small pools (constant collisions, regular '
